@@ -2,7 +2,7 @@
 import json, os
 from . import common
 from .cli import cli_family
-from .cgt import cgt_family, law_family, report_family, calendar_family, fx_family, dsl_family, misc_family, format_family, combine, fam_list
+from .cgt import cgt_family, law_family, report_family, calendar_family, fx_family, dsl_family, misc_family, format_family, schwab_family, awards_family, combine, fam_list
 
 
 def c01(tier, seed):
@@ -135,6 +135,24 @@ def c17(tier, seed):
                    assumptions=['MCP front-end figures are compared with the CLI in the C20 check'])
 
 
+def c18(tier, seed):
+    return combine([schwab_family(tier)], ['with_cancel', 'hostile_text', 'permutations'],
+                   'every export of at most 3 (thorough: 4) rows over an alphabet of 22 row shapes, all orders, duplicates included: '
+                   'TLC runs the two-pass Schwab.tla machine with its invariants (each Cancel Sell removes exactly one identical '
+                   'Sell, nothing relevant disappears silently, dividend / withholding totals) and prints the expected lines; the '
+                   'real converter\'s output must parse as DSL whatever the free text contains, equal the expected multiset, be '
+                   'chronological, be independent of row order (all permutations) and of date-disjoint chunking; non-trivial = '
+                   'exports with cancellations or hostile free text, and permutations compared')
+
+
+def c19(tier, seed):
+    return combine([awards_family(tier)], ['look_back', 'expected_failures'],
+                   'every awards file of at most 2 (thorough: 3) entries at day offsets -9..+2 around the deposit (vest-date value '
+                   'with / without its own vest date, fallback price, both in one entry in either order, duplicates, another '
+                   'symbol) x 5 base dates across month, year and leap-day boundaries x symbol case; Awards.tla gives the '
+                   'admissible (date, price) results or failure; non-trivial = look-back hits and expected failures')
+
+
 def c11(tier, seed):
     return combine(fam_list(tier, ['events_q', 'events_split_q'], ['events_t', 'events_split_t']), 'with_events',
                    'cell ledgers with a capital return / accumulation cell at every position; TLC judges the observed '
@@ -143,7 +161,7 @@ def c11(tier, seed):
                    'non-trivial = ledgers with a cost event')
 
 
-PROPS = {'C17': c17, 'C15': c15, 'C13': c13, 'C14': c14, 'C08': c08, 'C04': c04, 'C07': c07, 'C01': c01, 'C02': c02, 'C03': c03, 'C05': c05, 'C06': c06, 'C09': c09, 'C10': c10, 'C11': c11, 'C12': c12}
+PROPS = {'C18': c18, 'C19': c19, 'C17': c17, 'C15': c15, 'C13': c13, 'C14': c14, 'C08': c08, 'C04': c04, 'C07': c07, 'C01': c01, 'C02': c02, 'C03': c03, 'C05': c05, 'C06': c06, 'C09': c09, 'C10': c10, 'C11': c11, 'C12': c12}
 
 
 def replay(prop, path):
